@@ -99,9 +99,28 @@ class FakeSupervisord(object):
         pass
 
 
+class ScriptedSocketManager(object):
+    """stands for supervisor.socket_manager.SocketManager: get_socket() answers what the current operation scripts
+    (`sock`: 'ok' | 'fail' -- the FastCGI socket cannot be (re)created: address in use, directory gone)"""
+    answer = 'ok'
+
+    def __init__(self, socket_config, **kw):
+        self.socket_config = socket_config
+
+    def config(self):
+        return self.socket_config
+
+    def get_socket(self):
+        if ScriptedSocketManager.answer == 'fail':
+            raise OSError(errno.EADDRINUSE, 'Address already in use')
+        return object()
+
+
 class L1(object):
-    def __init__(self, cfg):
-        """cfg: dict startsecs startretries autostart autorestart exitcodes stopsignal stopwaitsecs stopasgroup killasgroup (seconds)"""
+    def __init__(self, cfg, fcgi=False):
+        """cfg: dict startsecs startretries autostart autorestart exitcodes stopsignal stopwaitsecs stopasgroup killasgroup (seconds);
+        fcgi: the process is a FastCGISubprocess in a FastCGIProcessGroup whose socket manager is scripted (monitors only: the
+        FastCGI hooks are not in the Lean model)"""
         import supervisor.process as sp, supervisor.rpcinterface as ri, supervisor.events as ev
         from supervisor.options import ProcessConfig, ProcessGroupConfig
         from supervisor.datatypes import RestartUnconditionally, RestartWhenExitUnexpected
@@ -111,8 +130,14 @@ class L1(object):
         ri.time = self.clock
         self.options = ScriptedOptions()
         ar = {'false': False, 'unexpected': RestartWhenExitUnexpected, 'true': RestartUnconditionally}[cfg['autorestart']]
-        class PC(NoDispatchConfigMixin, ProcessConfig):
-            pass
+        self.fcgi = fcgi
+        if fcgi:
+            from supervisor.options import FastCGIProcessConfig
+            class PC(NoDispatchConfigMixin, FastCGIProcessConfig):
+                pass
+        else:
+            class PC(NoDispatchConfigMixin, ProcessConfig):
+                pass
         d = dict(name='p', command='/bin/prog', directory=None, umask=None, priority=999, autostart=cfg['autostart'],
                  autorestart=ar, startsecs=cfg['startsecs'], startretries=cfg['startretries'], uid=None,
                  stdout_logfile=None, stdout_capture_maxbytes=0, stdout_events_enabled=False, stdout_syslog=False,
@@ -122,8 +147,14 @@ class L1(object):
                  killasgroup=cfg['killasgroup'], exitcodes=list(cfg['exitcodes']), redirect_stderr=False,
                  environment={}, serverurl=None)
         self.pconfig = PC(self.options, **d)
-        self.gconfig = ProcessGroupConfig(self.options, 'g', 999, [self.pconfig])
-        self.group = self.gconfig.make_group()
+        if fcgi:
+            ScriptedSocketManager.answer = 'ok'
+            self.gconfig = ProcessGroupConfig(self.options, 'g', 999, [self.pconfig])
+            self.gconfig.socket_config = 'unix:///sim/fcgi.sock'
+            self.group = sp.FastCGIProcessGroup(self.gconfig, socketManager=ScriptedSocketManager)
+        else:
+            self.gconfig = ProcessGroupConfig(self.options, 'g', 999, [self.pconfig])
+            self.group = self.gconfig.make_group()
         self.proc = self.group.processes['p']
         self.supervisord = FakeSupervisord(self.options, {'g': self.group})
         self.rpc = ri.SupervisorNamespaceRPCInterface(self.supervisord)
@@ -172,6 +203,7 @@ class L1(object):
         self.clock.t = op['now']
         err = None
         self.fault = None
+        ScriptedSocketManager.answer = op.get('sock', 'ok')
         try:
             k = op['op']
             if k == 'transition':
@@ -180,7 +212,7 @@ class L1(object):
                 self.group.transition()
             elif k == 'reap':
                 es = op['es']
-                sts = (es << 8) if es >= 0 else 9
+                sts = (es << 8) if es >= 0 else int(op.get('sig') or (9, 15, 2, 1, 35, 64, 33)[op['now'] % 7])   # killed by a signal, named or not (35 = SIGRTMIN+1)
                 if op.get('busy'):
                     self.proc.event = object()
                 self.proc.finish(self.proc.pid, sts)
@@ -302,8 +334,11 @@ def gen_ops(rng, n, t0=None):
             mood = 1 if rng.random() < 0.85 else rng.choice([0, -1])
             return {'op': 'transition', 'now': now, 'mood': mood, 'spawn': spawnres(), 'kill': killres()}
         if r < 0.65 and haschild:
-            es = rng.choice([0, 0, 1, 2, 3, -1, 255])
-            return {'op': 'reap', 'now': now, 'es': es, 'busy': rng.random() < 0.05}
+            es = rng.choice([0, 0, 1, 2, 3, -1, -1, 255])
+            op = {'op': 'reap', 'now': now, 'es': es, 'busy': rng.random() < 0.05}
+            if es < 0:
+                op['sig'] = rng.choice([9, 15, 2, 1, 35, 64, 33])     # the signal that killed it, named or not (real-time signals)
+            return op
         rmood = 1 if rng.random() < 0.9 else rng.choice([0, -1])
         if r < 0.75:
             return {'op': 'rpcstart', 'now': now, 'mood': rmood, 'spawn': spawnres()}
